@@ -35,6 +35,23 @@ def kind(v):
     return "i" if isinstance(v, int) else v[0]
 
 
+def size(v):
+    """number of nodes of the value as a tree (shared parts counted every time they occur)"""
+    k = kind(v)
+    if k in ("i", "s", "u"):
+        return 1
+    if k in ("l", "v"):
+        return 1 + sum(size(x) for x in v[1])
+    if k == "m":
+        return 1 + sum(1 + size(b) for _a, b in v[1])
+    if k == "t":
+        return 1 + len(v[1])
+    return 1 + size(v[1]) + size(v[2])
+
+
+MAX_SIZE = 48
+
+
 def show(v):
     k = kind(v)
     if k == "i":
@@ -310,6 +327,7 @@ class Eval:
             k = st[0]
             if k == "def" or k == "set":
                 env[st[1]] = self.apply(st[2], st[3], env)
+                need(size(env[st[1]]) <= 4 * MAX_SIZE)
             elif k == "gset":
                 env[st[1]] = self.atom(st[2], env)
             elif k == "clo":
@@ -462,6 +480,8 @@ class Gen:
             v = self.ev.apply(op, atoms, self.env)
         except Invalid:
             return None
+        if size(v) > MAX_SIZE:
+            return None
         self.env[x] = v
         self.names[x] = "var"
         if self.kont_seen:
@@ -600,6 +620,8 @@ class Gen:
             v = self.ev.apply(op, atoms, self.env)
         except Invalid:
             return
+        if size(v) > MAX_SIZE:
+            return
         self.env[x] = v
         self.names[x] = "mut"
         self.emit(("set", x, op, atoms))
@@ -618,6 +640,8 @@ class Gen:
         acc = self.val_of(x)
         for j in range(n):
             acc = LOOPS[op](acc, j)
+        if size(acc) > MAX_SIZE:
+            return
         self.env[y] = acc
         self.names[y] = "var"
         if self.kont_seen:
